@@ -238,6 +238,8 @@ func init() {
 			}
 			lr.RegisterWithOptions(out, opt)
 		}
+		var pending *core.Divergence // the first occurrence of the recorded add-path over-withdrawal in this behaviour
+		tainted := false
 		for i, st := range b.Steps {
 			a := st.Str("a")
 			core.At(i, a)
@@ -385,7 +387,7 @@ func init() {
 					return &core.Divergence{Step: i, Action: a, Field: "locrib-altered", Kind: kind, Want: want, Got: got}
 				}
 			}
-			if !exp.Up {
+			if !exp.Up || tainted {
 				continue
 			}
 			// C08: Adj-RIB-Out dump
@@ -428,11 +430,29 @@ func init() {
 								if rc.Type != "static" && rc.Src == 201 {
 									class = "addpath-window-holds-unadvertisable-path"
 								}
+								// iBGP split horizon (an iBGP-learned path towards an iBGP peer that is no RR client) and RFC 9234 (a route
+								// with OTC towards a provider, peer or route server) keep a path back just the same
+								if rc.Type != "static" && !rc.EBGP && sess.IBGP && !sess.RRC {
+									class = "addpath-window-holds-unadvertisable-path"
+								}
+								if rc.OTC != 0 && sess.Roles && (sess.Remote == "provider" || sess.Remote == "peer" || sess.Remote == "rs") {
+									class = "addpath-window-holds-unadvertisable-path"
+								}
 							}
 						}
 					}
-					return &core.Divergence{Step: i, Action: a, Field: "adj-rib-out", Kind: kind, Class: class,
+					dv := &core.Divergence{Step: i, Action: a, Field: "adj-rib-out", Kind: kind, Class: class,
 						Want: want, Got: got, Detail: fmt.Sprintf("pfx=/%s missing=%v extra=%v events=%v", bits, missing, extra, cl.events)}
+					if class != "addpath-window-holds-unadvertisable-path" {
+						return dv
+					}
+					// the recorded over-withdrawal of add-path sessions: remember it, stop comparing this session's tables (they are off
+					// from here on) and go on watching everything else (the other tables, the Loc-RIB's own path objects)
+					if pending == nil {
+						pending = dv
+					}
+					tainted = true
+					break
 				}
 				// C11: identifiers unique per prefix
 				if sess.N > 1 {
@@ -456,12 +476,18 @@ func init() {
 						Want: want, Got: gotView, Detail: fmt.Sprintf("pfx=/%s missing=%v extra=%v events=%v", bits, missing, extra, cl.events)}
 				}
 			}
+			if tainted {
+				continue
+			}
 			if n := int(out.RouteCount()); n != nonEmpty {
 				return &core.Divergence{Step: i, Action: a, Field: "routecount", Kind: "wrong", Want: nonEmpty, Got: n}
 			}
 			if n := len(out.Dump()); n != nonEmpty {
 				return &core.Divergence{Step: i, Action: a, Field: "dump", Kind: "wrong", Want: nonEmpty, Got: n}
 			}
+		}
+		if pending != nil {
+			return pending
 		}
 		return nil
 	})
